@@ -93,6 +93,8 @@ class SymStr:
             oc = [ord(x) for x in o]
         elif isinstance(o, SymStr):
             oc = o.c
+        elif isinstance(o, SymText):
+            return o.__eq__(self)
         else:
             return False
         if len(oc) != len(self.c):
